@@ -75,7 +75,8 @@ impl Cfg {
         Cfg { layers: 0, level: 5, recipients: vec![], reader: 0 }
     }
     pub fn make(rng: &mut Rng, layers: u8) -> Cfg {
-        let n = if layers & L_ENC != 0 { rng.range(1, 4) as usize } else { 0 };
+        // the format puts no bound on the number of recipients: now and then a header of several KiB
+        let n = if layers & L_ENC != 0 { if rng.chance(1, 50) { 85 + rng.below(60) as usize } else { rng.range(1, 4) as usize } } else { 0 };
         let recipients: Vec<[u8; 32]> = (0..n)
             .map(|_| {
                 let mut k = [0u8; 32];
